@@ -258,11 +258,12 @@ func (v *c15Env) record(f *c15Flight, withOp bool) {
 		oreply = "status=" + status
 	}
 	// the hook runs, in order
-	var inv []string
+	var inv, handed []string
 	for _, l := range f.lines {
 		fl := strings.SplitN(l, " ", 3)
 		if len(fl) != 3 || strings.IndexByte(fl[2], '[') < 0 {
 			inv = append(inv, "unreadable-log-line")
+			handed = append(handed, "?")
 			continue
 		}
 		entry := fl[2]
@@ -275,9 +276,9 @@ func (v *c15Env) record(f *c15Flight, withOp bool) {
 		if v.owner[ruleTok] != fl[0] {
 			entry = "ran-in-a-hook-or-binding-that-did-not-register-it:" + fl[0] + ":" + entry
 		}
+		handed = append(handed, fl[1])
 		if fl[1] != f.uid {
 			// the review in the binding context of a run made for this request is another request's
-			entry = "the-run-was-handed-the-review-of-another-request:" + fl[1] + ":" + entry
 			c.Note("e2e:a-run-was-handed-another-request")
 		}
 		if v.nonLast[ruleTok] {
@@ -294,7 +295,11 @@ func (v *c15Env) record(f *c15Flight, withOp bool) {
 	} else if v.e.Sched == nil {
 		c.Note("e2e:later-request-on-a-warm-cache")
 	}
-	c.Oracle("e2e " + f.params + " inv=" + invTok + " " + oreply)
+	handedTok := "-"
+	if len(handed) > 0 {
+		handedTok = strings.Join(handed, ";")
+	}
+	c.Oracle("e2e " + f.params + " inv=" + invTok + " req=" + f.uid + " handed=" + handedTok + " " + oreply)
 	c.Note("e2e:reply:" + strings.SplitN(reply, "=", 2)[0] + func() string {
 		if strings.HasPrefix(reply, "Failed msg=own:") {
 			return "=own"
